@@ -115,6 +115,7 @@ class FitHistMachine(Machine):
         n_ops = sw.randint(4, 16 if tier == "quick" else 30)
         read_density = sw.choice([0.3, 1.0, 2.0, 3.0])
         allow_model_rel = True
+        f2_run = (idx // len(FT)) % 8 == 5  # fault-injecting configurations are separate runs
         want_errors = t != "unbinned" and (cost in fitlib.NEEDS_ERRORS or sw.random() < 0.8)
         w = {"source": 3 if want_errors else 0, "toggle": 2 if want_errors else 0, "constraint": sw.choice([0, 1, 2]), "par": sw.choice([1, 2, 4]),
              "do_fit": sw.choice([0, 1, 2]), "set_data": sw.choice([0, 0, 1]), "gc": sw.choice([0, 1]), "collide": sw.choice([0, 0, 1]) if want_errors else 0,
@@ -186,6 +187,8 @@ class FitHistMachine(Machine):
             elif k == "do_fit" and n_fit < (2 if tier == "quick" else 3):
                 if rng.random() < 0.3:
                     ops.append(["clock", [0.0, rng.choice([11.0, 1e5, -50.0])]])
+                if f2_run and rng.random() < 0.5:
+                    ops.append(["cancel", rng.randint(1, 40)])  # F2: the model function raises on its k-th evaluation inside do_fit
                 ops.append(["do_fit"])
                 n_fit += 1
             elif k == "set_data" and not has_model_src:
@@ -282,8 +285,8 @@ class FitHistMachine(Machine):
         pend_collide = False
         for op in muts:
             k = op[0]
-            if k in ("gc", "clock"):
-                continue  # twins run without gc points and without clock jumps: results must not depend on either
+            if k in ("gc", "clock", "cancel"):
+                continue  # twins run without gc points, clock jumps and cancellations: results must not depend on the first two
             if k == "collide":
                 pend_collide = True
                 continue
@@ -366,6 +369,7 @@ class FitHistMachine(Machine):
         mut_pending = False
         n_fit = 0
         pend_collide = False
+        pend_cancel = 0
         tainted = False
         for step, op in enumerate(ops[1:], start=1):
             k = op[0]
@@ -385,17 +389,37 @@ class FitHistMachine(Machine):
                         same = [n for n, wh in zip(main.names, main.src_where) if wh == op[1]["ref"]]
                         if same:
                             world.collide_names.append(same[-1])
+                if k == "cancel":
+                    pend_cancel = int(op[1])
+                    continue
                 if k == "do_fit":
                     p0 = [float(v) for v in main.fit.parameter_values]
                     free = main.ref.n_par - len(main.ref.fixed)
                     if free < 1 or len(main.ref.d) < free + 1 or main.domain_ok(p0):
                         res.bump("op_skipped_do_fit_precondition")
                         continue
+                    if pend_cancel:
+                        userlib.CALLS["armed"] = pend_cancel
                     try:
                         main.fit.do_fit()
+                    except userlib.SimCancel:
+                        # F2 (report-only, DESIGN 3.4): no property quantifies over cancelled operations.  Record what a Ctrl-C leaves behind.
+                        res.bump("fault_F2_cancel_in_do_fit_fired")
+                        nxs = main.fit._nexus
+                        nfrozen = sum(1 for n in nxs._nodes.values() if getattr(n, "_frozen", False))
+                        res.probe("FAULT-PROBE_cancelled_do_fit")
+                        if nfrozen:
+                            res.probe("FAULT-PROBE_nodes_left_frozen_after_cancelled_do_fit")
+                        userlib.CALLS["armed"] = 0
+                        res.n_ops = len(ops)
+                        res.nontrivial = n_mut >= 3 and reads_after >= 2
+                        return
                     except Exception as e:  # a failing fit is not C03's subject: end the run as discarded
+                        userlib.CALLS["armed"] = 0
                         res.discard = "do_fit_raised_" + type(e).__name__
                         return
+                    userlib.CALLS["armed"] = 0
+                    pend_cancel = 0
                     if world.clock.total_advance:
                         res.bump("fault_F4_clock_jump_fired")
                     p1 = [float(v) for v in main.fit.parameter_values]
